@@ -121,7 +121,7 @@ M('mqsend-eager-outgoing', ['C03'], MQ, "        metrics = None\n\n        if fr
 M('maybe-evaluates-early', ['C03'], Z, "            if (not do_send or not clients) and not push:\n                ret = False\n\n            elif not isinstance(topicmsgs, dict):", "            if not isinstance(topicmsgs, dict) and False:\n                ret = False\n\n            elif not isinstance(topicmsgs, dict):", ['C03.R2', 'C04.R3'])
 M('mqsend-none-still-sends', ['C03'], MQ, "        if frames is None or self.sender is None:\n            outgoing()\n            outgone()\n", "        if self.sender is None:\n            outgoing()\n            outgone()\n", ['C03.R3', 'C03.R2'])
 M('maybe-none-consumes-id', ['C03'], Z, "                if (topicmsgs := topicmsgs()) is None:  # if no frames to send just-in-time then say that frames have been sent\n                    ret = True", "                if (topicmsgs := topicmsgs()) is None:  # if no frames to send just-in-time then say that frames have been sent\n                    ret = True\n                    self.min_send_id = msg_id + 1", ['C03.R3'])
-M('maybe-empty-not-sent', ['C03'], Z, "            if ret is not None:\n                return ret\n\n            if balance:", "            if ret is not None:\n                return ret\n\n            if not topicmsgs:\n                return True\n\n            if balance:", ['C03.R4', 'C02.R3'])
+M('maybe-empty-not-sent', ['C03'], Z, "            if ret is not None:\n                return ret\n\n            if '' in topicmsgs:", "            if ret is not None:\n                return ret\n\n            if not topicmsgs:\n                return True\n\n            if '' in topicmsgs:", ['C03.R4', 'C02.R3'])
 M('heartbeat-only-when-nonempty', ['C03'], Z, "            for pub in pubs:  # publish heartbeat / topics informative message\n                pub.send_multipart(msg_topics)", "            for pub in pubs if topicmsgs else ():  # publish heartbeat / topics informative message\n                pub.send_multipart(msg_topics)", ['C03.R4'])
 M('handshake-enters-client', ['C03', 'C06'], Z, "                        do_hello     = True\n                        ret          = True\n                        poll_timeout = 0\n\n                        continue", "                        do_hello     = True\n                        ret          = True\n                        poll_timeout = 0\n                        clients[full_id] = ZMQSender.Client(client_id, pull, t, True, ephemeral, prev_id)\n\n                        continue", ['C03.R5', 'C06.R5'])
 M('hello-only-chosen', ['C03', 'C07'], Z, "                    for pub in self.pubs:\n                        pub.send_multipart(msg_hello)", "                    for pub in self.pubs[:1]:\n                        pub.send_multipart(msg_hello)", ['C03.R5', 'C07.R5'])
